@@ -20,20 +20,13 @@ theorem getD_set {α} (l : List α) (x w : Nat) (v d : α) :
 /-- one bigram line in closed form -/
 theorem addLine_bigram (combine : Nat → Word → Nat) (s : St) (x y : Word) (e : Entry) :
     addLine combine false 2 s [x, y] e =
-      (s.longest.insert (hashOf combine [x, y])
-        { mag := e.prob.abs, neg := true, backoff := e.backoff, xr := decide (e.backoff ≠ 0), rest := -e.prob.abs }).map
+      (s.longest.insert (hashOf combine [x, y]) (lineW e)).map
         (fun o => (({ s with longest := o } : St).modify (.uni x) (fun w => { w with neg := false })).modify (.uni y) setExtension) := by
   unfold addLine
-  cases h : s.longest.insert (hashOf combine [x, y])
-      { mag := e.prob.abs, neg := true, backoff := e.backoff, xr := decide (e.backoff ≠ 0), rest := -e.prob.abs } with
-  | error err =>
-    have h' := h
-    simp only [ne_eq, decide_not] at h'
-    simp [h', bind, Except.bind, Except.map]
+  cases h : s.longest.insert (hashOf combine [x, y]) (lineW e) with
+  | error err => simp [h, bind, Except.bind, Except.map]
   | ok o =>
-    have h' := h
-    simp only [ne_eq, decide_not] at h'
-    simp [h', bind, Except.bind, Except.map, findLower, adjustLower, markExtends, activate, pure, Except.pure]
+    simp [h, bind, Except.bind, Except.map, findLower, adjustLower, markExtends, activate, pure, Except.pure]
 
 /-- the unigram array after the bigram lines `proc`: sign cleared for words that end a bigram, extension set for
 words that are the context of a bigram -/
@@ -67,8 +60,7 @@ theorem inv2_step (combine : Nat → Word → Nat) (u0 : List W) (hu : UniOK u0)
     | some i =>
       obtain ⟨hj, hk⟩ := honly _ i hm
       exact absurd hk.symm (hfresh _ (List.getElem_mem hj))
-  obtain ⟨o', hins, oi', hpay', hN', hent'⟩ := ord_insert oi (hashOf combine [x, y])
-    { mag := e.prob.abs, neg := true, backoff := e.backoff, xr := decide (e.backoff ≠ 0), rest := -e.prob.abs } hMk
+  obtain ⟨o', hins, oi', hpay', hN', hent'⟩ := ord_insert oi (hashOf combine [x, y]) (lineW e) hMk
     (by rw [hent, hN]; exact hcap)
   rw [addLine_bigram, hins]
   refine ⟨_, rfl, ?_⟩
@@ -148,7 +140,7 @@ theorem inv2_step (combine : Nat → Word → Nat) (u0 : List W) (hu : UniOK u0)
       · have hje : j = proc.length := by omega
         subst hje
         rw [List.getD_eq_getElem?_getD, List.getElem?_append_right (by rw [hpl]; exact Nat.le_refl _)]
-        simp [hpl]
+        simp [hpl, lineW]
     · intro k i hk
       unfold KV.Probing.upd at hk
       split at hk
